@@ -65,6 +65,7 @@ def fp_compare_invariants():
 
 
 def run(rep, tier, seed):
+    rep.level = "fault_enumeration"
     rng = random.Random(seed * 1000003 + 17)
     items = []      # (feature class, description, model, expected-false indices {0: symbolic, 1: stochastic, 2: concrete})
     sys1 = "system P;"
